@@ -51,6 +51,7 @@ type stream struct {
 	info      map[int][2]int64 // mid -> seq, type
 	onDeliver func(seq uint32) // re-entrant streams call back into the Reassembler from here
 	pending   []op
+	rawbuf    []byte // the one buffer every Push(typ, raw) is made from
 }
 
 func (s *stream) ident(m *auparse.AuditMessage) string {
@@ -312,7 +313,13 @@ func runCase(seed uint64, idx int) (coq string, desc map[string]interface{}, cls
 			raw := fmt.Sprintf("audit(1500000000.123:%d): id=%d", o.seq, o.mid)
 			text = append(text, fmt.Sprintf("pushraw seq=%d type=%d", o.seq, o.typ))
 			rc.lo = int64(time.Since(start))
-			err := ra.Push(auparse.AuditMessageType(o.typ), []byte(raw))
+			// the bytes belong to the caller (a netlink read loop reuses its buffer): they are overwritten as soon as Push returns
+			buf := append(s.rawbuf[:0], raw...)
+			s.rawbuf = buf
+			err := ra.Push(auparse.AuditMessageType(o.typ), buf)
+			for k := range buf {
+				buf[k] = '#'
+			}
 			rc.hi = int64(time.Since(start))
 			if err != nil {
 				rc.outs = append(rc.outs, "Panic")
